@@ -1,12 +1,193 @@
 /-
-  C07 — per-client state bounded, consistent (model: ScionTime/Model/Server.lean).
+  C07 — the server's per-client timestamp store stays bounded and consistent.
+  Model: ScionTime/Model/Server.lean (tss map + tssQ heap, handleRequest, updateTXTimestamp,
+  container/heap transcribed). Helper lemmas: ScionTime/Proofs/Server*.lean.
+
+  `Inv0 cap icap st` (Proofs/ServerInv.lean) is the structural invariant:
+    * `wf`   : map keys pairwise distinct, `len(tss) = len(tssQ)`, every heap slot `i` holds an
+               id that is in the map with `qidx = i`, and every map item's `qidx` is a heap
+               slot holding its id (heap keys ↔ map keys bijection, back pointers exact);
+    * `size` : `len(tss) ≤ cap`;
+    * `items`: every item has `1 ≤ len ≤ icap`, pairwise distinct rx values, `qval ≥` every
+               rx it keeps (in the order of `Time64.Before`), and (ghost) every entry was
+               written on behalf of the item's own client id.
+  All statements are parametric in the capacities (`1 ≤ cap`, `1 ≤ icap < 10^9`); the pins
+  instantiate them with the constants regenerated from /repo.
 -/
-import ScionTime.Model.Server
+import ScionTime.Proofs.ServerOps
 import ScionTime.Gen.Server
 namespace ScionTime.Props.C07
 open ScionTime.Time64 ScionTime.Server
 
 theorem C07_pin_tssCap : Gen.Server.tssCap = (tssCap : Int) := by decide
 theorem C07_pin_tssItemCap : Gen.Server.tssItemCap = (tssItemCap : Int) := by decide
+
+/-- The empty store satisfies the invariant. -/
+theorem C07_inv_init (cap icap : Nat) : Inv0 cap icap init := by
+  refine ⟨⟨by simp [init, Map.keys], rfl, ?_, ?_⟩, by simp [init], ?_⟩
+  · intro i hi; simp [init] at hi
+  · intro k q hq; simp [init, pos] at hq
+  · intro k it h; simp [init] at h
+
+/-- `handleRequest` preserves the invariant (repaired and original code alike). -/
+theorem C07_inv_handleRequest (strict : Bool) (cap icap : Nat) (hcap : 1 ≤ cap) (hic : 1 ≤ icap)
+    (hic2 : icap < 1000000000) (st : State) (inv : Inv0 cap icap st) (id : Nat) (req : Req)
+    (rxt now : Int) : Inv0 cap icap (handleRequestG strict cap icap st id req rxt now).st :=
+  inv0_handleRequestG strict cap icap hcap hic hic2 st inv id req rxt now
+
+/-- `updateTXTimestamp` preserves the invariant. -/
+theorem C07_inv_updateTX (cap icap : Nat) (st : State) (inv : Inv0 cap icap st) (id : Nat)
+    (rxt txt1 : Int) : Inv0 cap icap (updateTX st id rxt txt1).1 :=
+  inv0_updateTX cap icap st inv id rxt txt1
+
+theorem C07_inv_step (cap icap : Nat) (hcap : 1 ≤ cap) (hic : 1 ≤ icap) (hic2 : icap < 1000000000)
+    (st : State) (inv : Inv0 cap icap st) (op : Op) : Inv0 cap icap (stepOp cap icap st op) := by
+  cases op with
+  | hr id req rxt now => exact C07_inv_handleRequest true cap icap hcap hic hic2 st inv id req rxt now
+  | utx id rxt txt1 => exact C07_inv_updateTX cap icap st inv id rxt txt1
+
+/-- The invariant holds after every finite history of requests and transmit-timestamp updates
+    (any mix of clients, any timestamps), started from any state satisfying it. -/
+theorem C07_inv_run_from (cap icap : Nat) (hcap : 1 ≤ cap) (hic : 1 ≤ icap) (hic2 : icap < 1000000000)
+    (ops : List Op) : ∀ st, Inv0 cap icap st → Inv0 cap icap (run cap icap st ops) := by
+  induction ops with
+  | nil => intro st h; exact h
+  | cons op ops ih =>
+    intro st h
+    exact ih _ (C07_inv_step cap icap hcap hic hic2 st h op)
+
+theorem C07_inv_run (cap icap : Nat) (hcap : 1 ≤ cap) (hic : 1 ≤ icap) (hic2 : icap < 1000000000)
+    (ops : List Op) : Inv0 cap icap (run cap icap init ops) :=
+  C07_inv_run_from cap icap hcap hic hic2 ops init (C07_inv_init cap icap)
+
+/-- Bounds for the real constants: after any history at most 2^20 clients are kept, heap and
+    map have the same number of entries, and every kept client has between 1 and 8 exchanges
+    with pairwise distinct receive timestamps. -/
+theorem C07_bounded (ops : List Op) :
+    let st := run tssCap tssItemCap init ops
+    st.items.length ≤ 1048576 ∧ st.heap.size = st.items.length ∧
+      ∀ k it, st.items.find k = some it →
+        1 ≤ it.buf.length ∧ it.buf.length ≤ 8 ∧ (it.buf.map (·.rx)).Nodup := by
+  have inv := C07_inv_run tssCap tssItemCap (by decide) (by decide) (by decide) ops
+  refine ⟨inv.size, inv.wf.len.symm, ?_⟩
+  intro k it h
+  have ok := inv.items k it h
+  exact ⟨ok.len_pos, ok.len_le, ok.distinct⟩
+
+/-- Map/heap agreement after any history: the item of every heap slot points back to that
+    slot, every item's back pointer is a slot holding its own id, and no id occurs in two
+    slots. -/
+theorem C07_heap_map_agree (cap icap : Nat) (hcap : 1 ≤ cap) (hic : 1 ≤ icap) (hic2 : icap < 1000000000)
+    (ops : List Op) :
+    let st := run cap icap init ops
+    (∀ i, i < st.heap.size → ∃ it, st.items.find (hkey st i) = some it ∧ it.qidx = i) ∧
+    (∀ k it, st.items.find k = some it → it.qidx < st.heap.size ∧ hkey st it.qidx = k) ∧
+    (∀ i j, i < st.heap.size → j < st.heap.size → hkey st i = hkey st j → i = j) := by
+  have inv := C07_inv_run cap icap hcap hic hic2 ops
+  refine ⟨?_, ?_, ?_⟩
+  · intro i hi
+    have := inv.wf.fwd i hi
+    unfold pos at this
+    cases hf : Map.find (run cap icap init ops).items (hkey (run cap icap init ops) i) with
+    | none => simp [hf] at this
+    | some it => exact ⟨it, rfl, by simpa [hf] using this⟩
+  · intro k it h
+    exact inv.wf.bwd k it.qidx (by unfold pos; rw [h]; rfl)
+  · intro i j hi hj e
+    exact inv.wf.inj hi hj e
+
+/-- The client's place in the activity index never ranks it older than any exchange kept
+    for it: `qval` is not `Before` any kept receive timestamp. -/
+theorem C07_qval_ge_rx (cap icap : Nat) (hcap : 1 ≤ cap) (hic : 1 ≤ icap) (hic2 : icap < 1000000000)
+    (ops : List Op) (k : Nat) (it : Item) (e : Entry)
+    (h : (run cap icap init ops).items.find k = some it) (he : e ∈ it.buf) :
+    before it.qval e.rx = false :=
+  ((C07_inv_run cap icap hcap hic hic2 ops).items k it h).qval_ge e he
+
+/-- No index of `handleRequest`/`updateTXTimestamp` is out of range in a reachable state
+    (`tssQ[0]` is read only when the store is full, hence non-empty; `heap.Fix`/`heap.Remove`
+    get a valid slot). -/
+theorem C07_no_index_panic (cap icap : Nat) (hcap : 1 ≤ cap) (st : State) (inv : Inv0 cap icap st)
+    (id : Nat) : hrPanics cap st id = false ∧ utxPanics st id = false := by
+  unfold hrPanics utxPanics
+  cases hf : Map.find st.items id with
+  | none =>
+    simp only [Bool.and_eq_false_iff, decide_eq_false_iff_not, and_true]
+    by_cases h : st.items.length = cap
+    · right; have := inv.wf.len; omega
+    · left; exact h
+  | some it =>
+    have := (inv.wf.bwd id it.qidx (by unfold pos; rw [hf]; rfl)).1
+    simp only [decide_eq_false_iff_not, Nat.not_le]
+    exact ⟨this, this⟩
+
+theorem evict_spec (cap icap : Nat) (hcap : 1 ≤ cap) (st : State) (inv : Inv0 cap icap st) (rxt64 : T64) :
+    ((evict cap st rxt64).2 = none ∧ (evict cap st rxt64).1 = st ∧
+        ¬ (st.items.length = cap ∧ after (kv st 0) rxt64 = false)) ∨
+    ((evict cap st rxt64).2 = some (hkey st 0) ∧ st.items.length = cap ∧
+        after (kv st 0) rxt64 = false ∧ (evict cap st rxt64).1.items.length + 1 = cap) := by
+  unfold evict
+  split
+  · rename_i hc
+    simp only [Bool.and_eq_true, decide_eq_true_eq, Bool.not_eq_eq_eq_not, Bool.not_true] at hc
+    right
+    have hpos : 0 < st.heap.size := by have := inv.wf.len; omega
+    have hn : st.heap.size - 1 < st.heap.size := by omega
+    obtain ⟨_, b, _, _⟩ := popMin_spec st inv.wf hpos
+    refine ⟨?_, hc.1, hc.2, by simp only; omega⟩
+    simp only [popMin, Option.some.injEq]
+    rw [hkey_down_ge _ _ _ _ _ (by rw [size_swap]; omega) (Nat.le_refl _)]
+    rw [hkey_swap st _ _ _ hpos hn]
+    simp
+  · rename_i hc
+    left
+    refine ⟨rfl, rfl, ?_⟩
+    intro h
+    apply hc
+    simp [h.1, h.2]
+
+/-- Eviction: `handleRequest` evicts only for a new client, only when the store is full,
+    only the client in heap slot 0, and only if that client's `qval` is not `After` the new
+    receive timestamp (the newcomer is at least as recent); a new client arriving at a full
+    store whose minimum is later is served statelessly (the store does not change at all).
+    Requests of known clients never evict. (That slot 0 holds a least recently active
+    client is `C07_top_is_min`.) -/
+theorem C07_evict_top_only (cap icap : Nat) (hcap : 1 ≤ cap) (st : State) (inv : Inv0 cap icap st)
+    (id : Nat) (req : Req) (rxt now : Int) :
+    (∀ k, (handleRequest cap icap st id req rxt now).evicted = some k →
+        st.items.find id = none ∧ st.items.length = cap ∧ k = hkey st 0 ∧
+        after (kv st 0) (ofTime rxt) = false) ∧
+    ((handleRequest cap icap st id req rxt now).evicted = none → st.items.find id = none →
+        st.items.length = cap →
+        after (kv st 0) (ofTime rxt) = true ∧ (handleRequest cap icap st id req rxt now).st = st) := by
+  unfold handleRequest handleRequestG
+  simp only
+  split
+  · rename_i it hit
+    exact ⟨(by intro k h; cases h), (by intro _ h; rw [hit] at h; cases h)⟩
+  · rename_i hnone
+    have es := evict_spec cap icap hcap st inv (ofTime rxt)
+    generalize evict cap st (ofTime rxt) = ev at es ⊢
+    have hevd : ∀ (a b : HR), a.evicted = ev.2 → b.evicted = ev.2 → ∀ (c : Prop) [Decidable c],
+        (if c then a else b).evicted = ev.2 := by
+      intro a b ha hb c _; split <;> assumption
+    constructor
+    · intro k hk
+      rw [hevd _ _ rfl rfl] at hk
+      rcases es with ⟨e, _, _⟩ | ⟨e, l, a, _⟩
+      · rw [e] at hk; cases hk
+      · rw [e] at hk; cases hk
+        exact ⟨hnone, l, rfl, a⟩
+    · intro hk _ hl
+      rw [hevd _ _ rfl rfl] at hk
+      rcases es with ⟨_, e1, hn⟩ | ⟨e, _, _, _⟩
+      · have ha : after (kv st 0) (ofTime rxt) = true := by
+          cases h : after (kv st 0) (ofTime rxt)
+          · exact absurd ⟨hl, h⟩ hn
+          · rfl
+        refine ⟨ha, ?_⟩
+        rw [e1]
+        simp [hl]
+      · rw [e] at hk; cases hk
 
 end ScionTime.Props.C07
